@@ -393,6 +393,35 @@ def VALUE_HOLD(K=0, horizon=5, ops=None):
     return spec(f'VALUEHOLD[K{K}]', devs, horizon, ops, K)
 
 
+def NESTBATCH(K=0, horizon=5, ops=None):
+    '''Batches that contain batches (pallets of boxes from a user PartGenerator) travelling through a machine and a gate
+    in front of a slow station (refused offers).  Only routing is looked at: whether an inner batch counts as one part or
+    as its content in a buffer or a sink is not something the properties settle.'''
+    devs = [src('S', 1, pattern=[[2, 1], None, [1, [1, 1]]]), proc('P', ['S'], 0.5), gate('G', ['P'], 'all'),
+            proc('P2', ['G'], 1.5), sink('K', ['P2'])]
+    if ops is None:
+        ops = [('fail', 'P', 0), ('restore', 'P'), ('block', 'P2', True), ('block', 'P2', False)]
+    return spec(f'NESTBATCH[K{K}]', devs, horizon, ops, K)
+
+
+def VALUE_ALL(K=0, horizon=4, ops=None):
+    '''Every kind of asset configured with its own starting value (negative ones included), plus an asset that is
+    transitory by construction and registered with the system by hand (a leased tool).'''
+    wo = {'x': [1, 1, 2]}
+    devs = [src('S', 1, values=[5, 3]), hand('H', ['S'], 0.5, value=2), buf('B', ['H'], 2, 0),
+            batcher('U', ['B'], None), proc('P', ['U'], 1, dv=1, value=7, wo=wo), sink('K', ['P']), maint(1, value=10),
+            obj('o1'), psensor('PS', 1, [('o1', 'n')], 2, 1), osensor('OS', 'P', ['quality'], 0, None, 1), cms('C', ['PS', 'OS']),
+            {'kind': 'leased', 'name': 'tool', 'value': -6}]
+    devs[2]['value'] = 3
+    devs[3]['value'] = -1
+    devs[8]['value'] = -5
+    devs[9]['value'] = 4
+    devs[10]['value'] = 1
+    if ops is None:
+        ops = [('fail', 'P', 0), ('wo', 'P', 'x'), ('addvalue', 'tool', -2), ('addvalue', 'PS', 1)]
+    return spec(f'VALUEALL[K{K}]', devs, horizon, ops, K)
+
+
 def VALUE_BATCH(K=0, horizon=5, ops=None):
     devs = [src('S', 1, pattern=[2, None], values=[5, 3, 1]), batcher('U', ['S'], None), proc('P', ['U'], 0.5, dv=1),
             batcher('PB', ['P'], 2), sink('K', ['PB'])]
@@ -546,13 +575,17 @@ def cms(name, sensors):
 
 
 def SENS(K=0, horizon=5, interval=1, cap=2, n=1, ocap=None, callbacks=2, cms_twice=True, second=None, ops=None,
-         placeholder=None, two_cms=False, same_name=False, post_dq=None):
+         placeholder=None, two_cms=False, same_name=False, post_dq=None, burst=False):
     '''A processor under an output-part sensor, periodic sensors on a mutable object, a CMS.'''
     wo = {'x': [1, 1, 0]}
     devs = [src('S', 1, qualities=[1, 0.5, 0.25, 0.75], values=[1, 2, 3]), proc('M1', ['S'], 1, wo=wo, dq=-0.25, auto_repair='x'),
             sink('K', ['M1']), maint(1), obj('o1'),
-            psensor('P', interval, [('o1', 'x'), ('o1', 'n'), ('o1', 'r')], cap, callbacks),
+            psensor('P', interval, [('o1', 'x'), ('o1', 'n'), ('o1', 'r'), ('o1', 'm')], cap, callbacks),
             osensor('O', 'M1', ['quality', 'id'], n, ocap, 1)]
+    if burst:
+        # several parts finished -- several measurements of ONE sensor -- at the same instant
+        devs[0] = src('S', 0, 3, qualities=[1, 0.5, 0.25, 0.75], values=[1, 2, 3])
+        devs[1] = proc('M1', ['S'], 0, wo=wo, dq=-0.25, auto_repair='x')
     if placeholder:
         devs[-1]['placeholder'] = placeholder
     if post_dq is not None:
@@ -571,7 +604,7 @@ def SENS(K=0, horizon=5, interval=1, cap=2, n=1, ocap=None, callbacks=2, cms_twi
     if ops is None:
         ops = [('bump', 'o1'), ('fail', 'M1', 0), ('wo', 'M1', 'x'), ('restore', 'M1'), ('addsensor', 'C', 'P')]
     nm = (f'SENS[i{interval},c{cap},n{n},oc{ocap},cb{callbacks}{",2nd" + str(second) if second else ""}'
-          f'{",ph=" + placeholder if placeholder else ""}{",2cms" if two_cms else ""}{",samename" if same_name else ""}{",post" if post_dq is not None else ""},K{K}]')
+          f'{",ph=" + placeholder if placeholder else ""}{",2cms" if two_cms else ""}{",samename" if same_name else ""}{",post" if post_dq is not None else ""}{",burst" if burst else ""},K{K}]')
     return spec(nm, devs, horizon, ops, K)
 
 
